@@ -5,10 +5,16 @@
     [gf_sampford]); hence a [GaussFacts Phi Phiinv] premise for "all kinds", and separate
     [_PL_BT] statements, without that premise, for Plackett-Luce and Bradley-Terry.
 
-    Non-vacuity: the [GaussFacts] premise cannot be instantiated here (no formalised
-    Gaussian integral is installed), so the examples below instantiate the [_PL_BT]
-    statements only (where [Phi], [Phiinv] are arbitrary), on a concrete valid game, and show
-    that the league fold really plays a concrete game ([game_ok] = true).
+    Non-vacuity: the [GaussFacts] premise is instantiated: [GaussInst.PhiK] is the standard
+    normal distribution function constructed in GaussInst.v, [GaussInst.PhiinvK] its inverse,
+    and [GaussFull.GaussFacts_inst : GaussFacts GaussInst.PhiK GaussInst.PhiinvK] is proved
+    without hypothesis (calculus facts in GaussCalc.v, the value of the Gaussian integral in
+    GaussIntegral.v).  Every theorem with a [GaussFacts] premise has an [_inst] corollary at
+    the end of the file, stated for [GaussInst.PhiK] / [GaussInst.PhiinvK] with that premise
+    removed: nothing about the normal distribution is assumed any more; the only remaining
+    link is that CPython's NormalDist computes this function.  The examples below instantiate
+    the [_PL_BT] statements (where [Phi], [Phiinv] are arbitrary) on a concrete valid game,
+    and show that the league fold really plays a concrete game ([game_ok] = true).
 
     Edge of the property text made precise by the statements: with limit_sigma in force and
     a prior sigma of exactly 0 (valid when tau > 0) the clamp returns sigma' = 0, so strict
@@ -24,6 +30,7 @@
 From Coq Require Import List ZArith Bool Reals Lra.
 From OSV Require Import Num Order Core RInst.
 From OSV.Lemmas Require C06L.
+From OSV Require GaussInst GaussFull.
 Import ListNotations.
 Open Scope R_scope.
 
@@ -299,3 +306,92 @@ Proof.
   repeat (rewrite (proj2 (Rltb_true _ _)) by lra).
   reflexivity.
 Qed.
+
+(** ** The [GaussFacts] premise instantiated.
+
+    Each theorem above that takes [GaussFacts Phi Phiinv] as a premise is restated here for
+    the concrete standard normal distribution function [GaussInst.PhiK] and its inverse
+    [GaussInst.PhiinvK] (constructed in GaussInst.v), with no premise about the normal law:
+    [GaussFull.GaussFacts_inst : GaussFacts GaussInst.PhiK GaussInst.PhiinvK] is proved
+    outright (calculus facts in GaussCalc.v, the Gaussian integral in GaussIntegral.v). *)
+Theorem C06_step_inst :
+  forall (k : kind) (P : params R) (tau : R) (limit : bool)
+         (teams : list (list (rating R))) (keys : option (list key)),
+  (2 <= length teams)%nat ->
+  Forall (fun t : list (rating R) => t <> []) teams ->
+  0 < p_beta P -> 0 < p_kappa P <= 1 -> 0 <= tau ->
+  Forall (Forall (fun p : rating R => 0 <= r_sigma p /\ 0 < r_sigma p * r_sigma p + tau * tau)) teams ->
+  (forall (c : R) (n : nat) (mu ss : R) (team : list (rating R)) (rank : nat),
+     0 <= p_gamma P c n mu ss team rank) ->
+  match keys with Some ks => length ks = length teams | None => True end ->
+  Forall2 (Forall2 (fun p r : rating R =>
+      0 <= r_sigma r <= sqrt (r_sigma p * r_sigma p + tau * tau) /\
+      (limit = false \/ 0 < r_sigma p -> 0 < r_sigma r)))
+    teams (@rate_core R (RNum GaussInst.PhiK GaussInst.PhiinvK) k P tau limit teams keys).
+Proof. exact (C06_step GaussInst.PhiK GaussInst.PhiinvK GaussFull.GaussFacts_inst). Qed.
+Print Assumptions C06_step_inst.
+
+Theorem C06_step_kappa0_inst :
+  forall (k : kind) (P : params R) (tau : R) (limit : bool)
+         (teams : list (list (rating R))) (keys : option (list key)),
+  (2 <= length teams)%nat ->
+  Forall (fun t : list (rating R) => t <> []) teams ->
+  0 < p_beta P -> p_kappa P = 0 -> 0 <= tau ->
+  Forall (Forall (fun p : rating R => 0 <= r_sigma p /\ 0 < r_sigma p * r_sigma p + tau * tau)) teams ->
+  (forall (c : R) (n : nat) (mu ss : R) (team : list (rating R)) (rank : nat),
+     0 <= p_gamma P c n mu ss team rank) ->
+  match keys with Some ks => length ks = length teams | None => True end ->
+  Forall2 (Forall2 (fun p r : rating R =>
+      0 <= r_sigma r <= sqrt (r_sigma p * r_sigma p + tau * tau) /\
+      (limit = true -> r_sigma r <= r_sigma p)))
+    teams (@rate_core R (RNum GaussInst.PhiK GaussInst.PhiinvK) k P tau limit teams keys).
+Proof. exact (C06_step_kappa0 GaussInst.PhiK GaussInst.PhiinvK GaussFull.GaussFacts_inst). Qed.
+Print Assumptions C06_step_kappa0_inst.
+
+Theorem C06_limit_inst :
+  forall (k : kind) (P : params R) (tau : R)
+         (teams : list (list (rating R))) (keys : option (list key)),
+  (2 <= length teams)%nat ->
+  Forall (fun t : list (rating R) => t <> []) teams ->
+  0 < p_beta P -> 0 < p_kappa P <= 1 -> 0 <= tau ->
+  Forall (Forall (fun p : rating R => 0 <= r_sigma p /\ 0 < r_sigma p * r_sigma p + tau * tau)) teams ->
+  (forall (c : R) (n : nat) (mu ss : R) (team : list (rating R)) (rank : nat),
+     0 <= p_gamma P c n mu ss team rank) ->
+  match keys with Some ks => length ks = length teams | None => True end ->
+  Forall2 (Forall2 (fun p r : rating R =>
+      0 <= r_sigma r <= r_sigma p /\ (0 < r_sigma p -> 0 < r_sigma r)))
+    teams (@rate_core R (RNum GaussInst.PhiK GaussInst.PhiinvK) k P tau true teams keys).
+Proof. exact (C06_limit GaussInst.PhiK GaussInst.PhiinvK GaussFull.GaussFacts_inst). Qed.
+Print Assumptions C06_limit_inst.
+
+Theorem C06_history_step_inst :
+  forall (k : kind) (P : params R),
+  0 < p_beta P -> 0 <= p_kappa P <= 1 ->
+  (forall (c : R) (n : nat) (mu ss : R) (team : list (rating R)) (rank : nat),
+     0 <= p_gamma P c n mu ss team rank) ->
+  forall (g : C06L.game) (st : list (rating R)) (i : nat),
+  ((C06L.plays i g = true -> C06L.g_limit g = true) ->
+     r_sigma (C06L.get (C06L.play GaussInst.PhiK GaussInst.PhiinvK P k st g) i) <= r_sigma (C06L.get st i))
+  /\ r_sigma (C06L.get (C06L.play GaussInst.PhiK GaussInst.PhiinvK P k st g) i) * r_sigma (C06L.get (C06L.play GaussInst.PhiK GaussInst.PhiinvK P k st g) i)
+     <= r_sigma (C06L.get st i) * r_sigma (C06L.get st i)
+        + (if C06L.plays i g then C06L.g_tau g * C06L.g_tau g else 0)
+  /\ (0 < p_kappa P -> 0 < r_sigma (C06L.get st i) ->
+      0 < r_sigma (C06L.get (C06L.play GaussInst.PhiK GaussInst.PhiinvK P k st g) i)).
+Proof. exact (C06_history_step GaussInst.PhiK GaussInst.PhiinvK GaussFull.GaussFacts_inst). Qed.
+Print Assumptions C06_history_step_inst.
+
+Theorem C06_history_inst :
+  forall (k : kind) (P : params R),
+  0 < p_beta P -> 0 <= p_kappa P <= 1 ->
+  (forall (c : R) (n : nat) (mu ss : R) (team : list (rating R)) (rank : nat),
+     0 <= p_gamma P c n mu ss team rank) ->
+  forall (gs : list C06L.game) (st : list (rating R)) (i : nat),
+  ((forall g : C06L.game, In g gs -> C06L.plays i g = true -> C06L.g_limit g = true) ->
+     r_sigma (C06L.get (C06L.run GaussInst.PhiK GaussInst.PhiinvK P k st gs) i) <= r_sigma (C06L.get st i))
+  /\ r_sigma (C06L.get (C06L.run GaussInst.PhiK GaussInst.PhiinvK P k st gs) i) * r_sigma (C06L.get (C06L.run GaussInst.PhiK GaussInst.PhiinvK P k st gs) i)
+     <= r_sigma (C06L.get st i) * r_sigma (C06L.get st i)
+        + Rsum (map (fun g : C06L.game => if C06L.plays i g then C06L.g_tau g * C06L.g_tau g else 0) gs)
+  /\ (0 < p_kappa P -> 0 < r_sigma (C06L.get st i) ->
+      0 < r_sigma (C06L.get (C06L.run GaussInst.PhiK GaussInst.PhiinvK P k st gs) i)).
+Proof. exact (C06_history GaussInst.PhiK GaussInst.PhiinvK GaussFull.GaussFacts_inst). Qed.
+Print Assumptions C06_history_inst.
